@@ -142,8 +142,11 @@ def run_shard(mode, n, firsts, tier, sub_seed):
                     rmtree(scratch)
                     import os as _os
                     _os.makedirs(scratch, exist_ok=True)
+                    from ..seqengine import path_spelling
+                    sd = path_spelling(scratch, rng.randrange(4))
+                    res.count("stores_reached_through_a_non_canonical_path", 1 if sd != "store" else 0)
                     pool = WorldPool(scratch, contents, docs, depth=rng.choice([1, 2, 5]), width=rng.choice([1, 3]),
-                                     algo=rng.choice(STORE_ALGOS))
+                                     algo=rng.choice(STORE_ALGOS), store_dir=sd)
                 ops = []
                 for _ in range(40):
                     r = rng.random()
